@@ -18,7 +18,7 @@
 (***************************************************************************)
 EXTENDS ArchClient, Json
 
-CONSTANTS Family,   \* "rd" | "rs" | "bt" | "cf"
+CONSTANTS Family,   \* "rd" | "rs" | "bt" | "cf" | "cm"
           D,        \* program length
           Alpha,    \* "full" | "red" | "tiny": size of the operation alphabet
           Variant   \* configuration variant 1..3
@@ -64,7 +64,7 @@ J1 == [a |-> 1, reqs |-> <<Q(1, TRUE, -1)>>]
 J3 == [a |-> 3, reqs |-> <<Q(2, TRUE, -1), Q(4, TRUE, -1)>>]
 RdOps ==
   {[op |-> "xr", a |-> 1, off |-> w[1], size |-> w[2], top |-> FALSE, ks |-> ks, outs |-> o] : w \in Windows, ks \in BOOLEAN, o \in Outs1} \cup
-  {[op |-> "xr", a |-> 1, off |-> 0, size |-> 5, top |-> TRUE, ks |-> FALSE, outs |-> <<>>]} \cup
+  {[op |-> "xr", a |-> 1, off |-> w[1], size |-> w[2], top |-> TRUE, ks |-> FALSE, outs |-> <<>>] : w \in {<<0, 5>>, <<4, 5>>, <<9, 5>>}} \cup
   {[op |-> "xk", a |-> a, k |-> k, ks |-> ks, outs |-> o] : a \in 1..3, k \in {1, 2, 3, 4, 5, 6, 9}, ks \in BOOLEAN, o \in Outs1} \cup
   {[op |-> "xm", a |-> a, reqs |-> q, ks |-> FALSE, outs |-> o] : a \in 1..3, q \in ReqLists, o \in Outs2} \cup
   {[op |-> "xm", a |-> 1, reqs |-> <<Q(1, TRUE, -1), Q(2, FALSE, -1)>>, ks |-> TRUE, outs |-> <<>>]} \cup
@@ -123,13 +123,18 @@ CfProgram ==
      IN [op |-> "cfg_new", host |-> h[1], hc |-> h[2], product |-> p[1], pc |-> p[2], path |-> t[1], tc |-> t[2], https |-> (i % 2 = 0)]]
   \o [i \in 1..Len(Hosts) |-> [op |-> "whost", host |-> Hosts[i][1], hc |-> Hosts[i][2]]]
 
+CmOps == {[op |-> o, key |-> "k1"] : o \in {"fc", "fe"}} \cup
+         {[op |-> "fg", hash |-> "abcd1234", hcl |-> "ok"], [op |-> "fg", hash |-> "abc", hcl |-> "short"]} \cup
+         {[op |-> "fr", name |-> "ab/cd/abcd.data", off |-> 7, len |-> n] : n \in {0, 5}}
 Ops == CASE Family = "rd" -> RdOps
+         [] Family = "cm" -> CmOps
          [] Family = "rs" -> (IF Alpha = "full" THEN RsFull ELSE IF Alpha = "red" THEN RsRed ELSE RsTiny)
          [] Family = "bt" -> BtOps
          [] OTHER -> {}
 
 \* ---- the machine ---------------------------------------------------------------------------
-X0(c) == St0(Family, [cfg |-> c, arcs |-> [a \in 1..Len(c.arcs) |-> ArcBytes(c, a)]])
+X0(c) == IF Family = "cm" THEN St0("cm", [cfg |-> c]) ELSE St0(Family, [cfg |-> c, arcs |-> [a \in 1..Len(c.arcs) |-> ArcBytes(c, a)]])
+CfgOf == IF Family = "cm" THEN [urls |-> Variant - 1] ELSE Cfgs[Variant]
 RECURSIVE FoldJ(_, _, _, _, _)
 FoldJ(kd, j, evs, i, acc) ==     \* acc = [ok, plain]: every event accepted / accepted without a label
   IF i > Len(evs) THEN [j |-> j, ok |-> acc.ok, plain |-> acc.plain]
@@ -137,7 +142,7 @@ FoldJ(kd, j, evs, i, acc) ==     \* acc = [ok, plain]: every event accepted / ac
        FoldJ(kd, v.st, evs, i + 1, [ok |-> acc.ok /\ v.ok, plain |-> acc.plain /\ v.ok /\ v.dev = ""])
 Acc0 == [ok |-> TRUE, plain |-> TRUE]
 
-MCInit == /\ cfg = Cfgs[Variant]
+MCInit == /\ cfg = CfgOf
           /\ xI = X0(cfg).x /\ xC = xI /\ jI = X0(cfg) /\ jC = jI /\ jP = jI
           /\ okI = TRUE /\ okC = TRUE /\ okP = TRUE /\ hist = <<>>
 Do(op) ==
